@@ -432,7 +432,7 @@ from .c12 import ISODEP_EMPTY_REASON, ISODEP_EMPTY_ANCHORS   # noqa: E402
 
 triage.add('C08', 'C08-R1', key('struct.error', 'raised in nfc.tag.tt4.Type4Tag.NDEF._read_ndef_data', 'unpack(lfmt, nlen)'), NLEN_REASON, NLEN_ANCHORS)
 
-triage.add('C08', 'C08-R1', key('IndexError', 'raised in nfc.tag.tt4.IsoDepInitiator.exchange', 'data[0] in `while bool(data[0] & 16)`'), ISODEP_EMPTY_REASON, ISODEP_EMPTY_ANCHORS)
+triage.add('C08', 'C08-R1', key('IndexError', 'raised in nfc.tag.tt4.IsoDepInitiator.exchange', 'data[0] in `while data[0] & 16`'), ISODEP_EMPTY_REASON, ISODEP_EMPTY_ANCHORS)
 
 
 from .c16 import SEGMENT_REASON, SEGMENT_ANCHORS, APDU_REASON, APDU_ANCHORS   # noqa: E402
